@@ -401,6 +401,14 @@ Proof.
         rewrite upd_upd. reflexivity.
 Qed.
 
+Lemma advance_stat_irrel : forall st i k k',
+  k_co k = k_co k' -> k_tok k = k_tok k' -> k_prog k = k_prog k' -> k_out k = k_out k' -> k_seq k = k_seq k' ->
+  tget (k_tok k) (s_table st) = None -> advance st i k = advance st i k'.
+Proof.
+  intros st i k k' H1 H2 H3 H4 H5 H6. unfold advance, submit.
+  rewrite <- H1, <- H2, <- H3, <- H4, <- H5, H6. reflexivity.
+Qed.
+
 Section Complete.
 Variable rs : list rspec.
 Variable cs : list cspec.
@@ -527,3 +535,158 @@ Proof.
 Qed.
 
 End Complete.
+
+(** ** the moves *)
+Ltac norm_st := cbn [set_table set_caller set_callers set_inflight set_res s_callers s_table s_res s_inflight
+                     s_dead s_div s_tags].
+
+Section Moves.
+Variable rs : list rspec.
+Variable cs : list cspec.
+Hypothesis Hnd : NoDup (map cs_tok cs).
+Hypothesis Hpriv : private cs = true.
+Hypothesis Hcalls : forall c cl, In c cs -> In cl (cs_prog c) -> (c_res cl < length rs)%nat /\ 1 <= c_len cl.
+Hypothesis Hnodef : forall c cl, In c cs -> In cl (cs_prog c) -> cs_co c = true ->
+  rs_kind (nth (c_res cl) rs rsdummy) <> KClosed
+  /\ (classify (rs_kind (nth (c_res cl) rs rsdummy)) (c_op cl) = CRead -> rs_timed (nth (c_res cl) rs rsdummy) = false).
+Variable total : nat -> Z.
+Hypothesis Htotal : forall r, feedable (rs_kind (nth r rs rsdummy)) (rs_eof (nth r rs rsdummy)) = false -> total r = 0.
+
+Notation Inv := (Inv rs cs).
+Notation cinv := (cinv rs).
+
+Lemma complete_inv : forall rest st j, Inv None rest total st -> Inv None rest total (complete st j).
+Proof.
+  intros rest st j HI. unfold complete.
+  destruct (nth_error (s_inflight st) j) as [q|] eqn:Hq; auto.
+  destruct (i_fl_a _ _ _ _ _ _ HI q (nth_error_In _ _ Hq)) as [kq [cl [Hk [Hst Hqeq]]]].
+  set (i := q_own q) in *.
+  assert (Hcl : q_call q = cl) by (rewrite Hqeq; auto).
+  assert (Htok : q_tok q = k_tok kq) by (rewrite Hqeq; auto).
+  assert (Hseq : q_seq q = k_seq kq) by (rewrite Hqeq; auto).
+  rewrite Hcl.
+  destruct (kernel (c_res cl) (nth (c_res cl) (s_res st) rdummy) (c_op cl) (c_len cl)) as [|v bytes x'] eqn:Hker; auto.
+  assert (Hlt : (i < length (s_callers st))%nat) by (eapply nth_error_some_lt; eauto).
+  assert (Hlc : (i < length cs)%nat) by (rewrite <- (i_len _ _ _ _ _ _ HI); auto).
+  destruct (nth_error_lt_some cs i Hlc) as [c Hc].
+  pose proof (retire_inv rs cs Hnd Hpriv Hcalls Hnodef total Htotal rest st j q i kq cl c v bytes x'
+                HI Hq eq_refl Hk Hst Hcl Hc Hker) as HR.
+  match type of HR with Inv _ _ _ ?S => set (SR := S) in * end.
+  pose proof (i_table _ _ _ _ _ _ HI i kq Hk) as Htab. unfold waiting in Htab. rewrite Hst in Htab.
+  pose proof (inv_nodup rs cs Hnd _ _ _ _ HI) as ND.
+  set (krun := {| k_co := k_co kq; k_tok := k_tok kq; k_prog := k_prog kq; k_stat := SDone;
+                  k_out := map_result v bytes :: k_out kq; k_seq := k_seq kq; k_slot := None; k_buf := [] |}).
+  (* the data lands in the call's buffer *)
+  unfold land. norm_st. fold i.
+  rewrite (nth_error_nth _ _ _ cdummy Hk). rewrite Hst. cbn [is_wait andb]. rewrite Hseq, Nat.eqb_refl.
+  (* the slot is filled and unregistered *)
+  unfold dispatch, fill. norm_st. rewrite Htok, Htab. norm_st. rewrite nth_upd_same by auto.
+  cbn [with_buf k_stat k_seq]. rewrite Hst. cbn [is_wait andb]. rewrite Nat.eqb_refl.
+  (* the caller is woken *)
+  unfold wake. norm_st. rewrite upd_upd.
+  set (kslot := with_slot (with_buf kq bytes) (Some v)).
+  assert (Hks : nth_error (upd i kslot (s_callers st)) i = Some kslot) by (apply nth_error_upd_same; auto).
+  assert (ND' : NoDup (map k_tok (upd i kslot (s_callers st)))).
+  { rewrite (map_upd k_tok _ i _ cdummy); auto. rewrite (nth_error_nth _ _ _ cdummy Hk). reflexivity. }
+  pose proof (find_co_spec _ _ _ O ND' Hks) as Hfind. change (k_tok kslot) with (k_tok kq) in Hfind.
+  rewrite Hfind.
+  assert (Hwoken : match (if k_co kslot then Some (0 + i)%nat else None) with Some c0 => Some c0 | None => Some i end = Some i).
+  { destruct (k_co kslot); auto. }
+  rewrite Hwoken. rewrite nth_upd_same by auto.
+  change (k_stat kslot) with (k_stat kq). rewrite Hst. cbn [is_wait].
+  change (k_slot kslot) with (Some v). change (k_buf kslot) with bytes.
+  unfold finish_call.
+  match goal with |- Inv _ _ _ (advance ?S0 i ?K0) =>
+    replace (advance S0 i K0) with (advance SR i krun) end.
+  - eapply (advance_inv rs cs Hnd Hpriv Hcalls Hnodef); eauto.
+    unfold SR; cbn [s_callers]. apply nth_error_upd_same; auto.
+  - match goal with |- _ = advance ?S0 i ?K0 =>
+      transitivity (advance (set_caller S0 i krun) i K0); [|apply advance_irrel] end.
+    replace (set_caller _ i krun) with SR.
+    + apply advance_stat_irrel; try reflexivity. unfold SR, krun; cbn [s_table k_tok]. apply tget_tdel_same.
+    + unfold SR, set_caller, set_callers, set_table, set_inflight, set_res. cbn.
+      rewrite !upd_upd, (i_alive _ _ _ _ _ _ HI), (i_nodiv _ _ _ _ _ _ HI). reflexivity.
+Qed.
+
+Lemma reg_inv : forall rest st c, Inv None rest total st -> Inv None rest total (reg st c).
+Proof.
+  intros rest st i HI. unfold reg.
+  destruct (nth_error (s_callers st) i) as [k|] eqn:Hk.
+  2:{ rewrite (nth_overflow _ cdummy) by (apply nth_error_None; auto). cbn. auto. }
+  rewrite (nth_error_nth _ _ _ cdummy Hk).
+  destruct (k_stat k) as [|cl|cl|] eqn:Hst; auto.
+  assert (Hlt : (i < length (s_callers st))%nat) by (eapply nth_error_some_lt; eauto).
+  pose proof (inv_nodup rs cs Hnd _ _ _ _ HI) as ND.
+  assert (Hfl : forall q, In q (s_inflight st) -> q_own q <> i).
+  { intros q Hq E. destruct (i_fl_a _ _ _ _ _ _ HI q Hq) as [kq [cl' [H1 [H2 _]]]]. rewrite E in H1. congruence. }
+  assert (Htodo : todo (with_stat k (SWait cl)) = todo k) by (unfold todo, pending; cbn; rewrite Hst; auto).
+  unfold push.
+  constructor; cbn [set_caller set_callers set_inflight s_dead s_div s_callers s_res s_table s_inflight].
+  - apply (i_alive _ _ _ _ _ _ HI).
+  - apply (i_nodiv _ _ _ _ _ _ HI).
+  - rewrite upd_length. apply (i_len _ _ _ _ _ _ HI).
+  - rewrite (map_upd k_tok _ i _ cdummy); [apply (i_toks _ _ _ _ _ _ HI)|].
+    rewrite (nth_error_nth _ _ _ cdummy Hk). reflexivity.
+  - intros j cj kj Hcj Hkj. rewrite nth_error_upd in Hkj by auto. destruct (Nat.eq_dec j i).
+    + subst j. inversion Hkj; subst kj; clear Hkj.
+      destruct (i_callers _ _ _ _ _ _ HI i cj k Hcj Hk) as [A B C D E F [done [T [G1 [G2 [G3 G4]]]]]].
+      constructor; cbn; auto; try congruence; try discriminate.
+      exists done, T. repeat split; auto. rewrite G1. f_equal. symmetry. exact Htodo.
+    + eapply (i_callers _ _ _ _ _ _ HI); eauto.
+  - apply (i_rlen _ _ _ _ _ _ HI).
+  - apply (i_res _ _ _ _ _ _ HI).
+  - intros j kj Hkj. rewrite nth_error_upd in Hkj by auto. destruct (Nat.eq_dec j i).
+    + subst j. inversion Hkj; subst kj. cbn. pose proof (i_table _ _ _ _ _ _ HI i k Hk) as Ht.
+      unfold waiting in Ht. rewrite Hst in Ht. exact Ht.
+    + apply (i_table _ _ _ _ _ _ HI); auto.
+  - intros q Hq. apply in_app_or in Hq as [Hq|Hq].
+    + destruct (i_fl_a _ _ _ _ _ _ HI q Hq) as [kq [cl' [H1 [H2 H3]]]].
+      exists kq, cl'. rewrite nth_error_upd_other by (intro E; apply (Hfl q Hq); auto). auto.
+    + destruct Hq as [Hq|[]]. subst q. cbn [q_own].
+      eexists; exists cl. rewrite nth_error_upd_same by auto. split; [reflexivity|]. cbn. auto.
+  - intros j kj cl' Hkj Hst'. rewrite nth_error_upd in Hkj by auto. destruct (Nat.eq_dec j i).
+    + subst j. eexists. split; [apply in_or_app; right; simpl; left; reflexivity|]. reflexivity.
+    + destruct (i_fl_b _ _ _ _ _ _ HI j kj cl' Hkj Hst') as [q [Hq1 Hq2]].
+      exists q. split; auto. apply in_or_app; auto.
+  - rewrite map_app. cbn [map q_own]. apply NoDup_app_one; [apply (i_fl_c _ _ _ _ _ _ HI)|].
+    intro Hin'. apply in_map_iff in Hin' as [q [Hq1 Hq2]]. apply (Hfl q Hq2); auto.
+  - intros r sp x Hsp Hx Hrd Heof. rewrite (rdemand_upd rs _ i _ cdummy r Hlt).
+    rewrite (nth_error_nth _ _ _ cdummy Hk), Htodo.
+    pose proof (i_suff _ _ _ _ _ _ HI r sp x Hsp Hx Hrd Heof). lia.
+  - intros j kj Hkj Hst'. rewrite nth_error_upd in Hkj by auto. destruct (Nat.eq_dec j i).
+    + inversion Hkj; subst kj; cbn in Hst'; discriminate.
+    + eapply (i_start _ _ _ _ _ _ HI); eauto.
+Qed.
+
+(** no time limit can expire: coroutines have no read-type call on a socket with a time limit *)
+Lemma no_timeout : forall rest st k, Inv None rest total st -> In k (s_callers st) -> can_timeout st k = false.
+Proof.
+  intros rest st k HI Hin. apply In_nth_error in Hin as [i Hk].
+  unfold can_timeout. destruct (k_co k) eqn:Eco; auto. cbn [andb].
+  destruct (k_stat k) as [|cl|cl|] eqn:Hst; auto.
+  assert (Hlc : (i < length cs)%nat) by (rewrite <- (i_len _ _ _ _ _ _ HI); eapply nth_error_some_lt; eauto).
+  destruct (nth_error_lt_some cs i Hlc) as [c Hc].
+  destruct (i_callers _ _ _ _ _ _ HI i c k Hc Hk) as [A B C D E F [done [T [G1 _]]]].
+  assert (Hcin : In c cs) by (eapply nth_error_In; eauto).
+  assert (Hin : In cl (cs_prog c)).
+  { rewrite G1. unfold todo, pending. rewrite Hst. apply in_or_app; right; simpl; auto. }
+  destruct (Hcalls c cl Hcin Hin) as [Hrlt _].
+  destruct (Hnodef c cl Hcin Hin) as [_ Hn]; [congruence|].
+  destruct (nth_error_lt_some rs (c_res cl) Hrlt) as [sp Hsp].
+  assert (Hrlt' : (c_res cl < length (s_res st))%nat) by (rewrite (i_rlen _ _ _ _ _ _ HI); auto).
+  destruct (nth_error_lt_some (s_res st) _ Hrlt') as [x Hx].
+  destruct (i_res _ _ _ _ _ _ HI _ _ _ Hsp Hx) as [R1 [_ [R3 _]]].
+  unfold timed_call. rewrite (nth_error_nth _ _ _ rdummy Hx), R1, R3.
+  rewrite (nth_error_nth _ _ _ rsdummy Hsp) in Hn.
+  destruct (classify (rs_kind sp) (c_op cl)); auto.
+Qed.
+
+Lemma timeout_inv : forall rest st c, Inv None rest total st -> timeout st c = st.
+Proof.
+  intros rest st c HI. unfold timeout.
+  destruct (nth_error (s_callers st) c) as [k|] eqn:Hk.
+  - rewrite (nth_error_nth _ _ _ cdummy Hk). rewrite (no_timeout rest st k HI); auto. eapply nth_error_In; eauto.
+  - rewrite (nth_overflow _ cdummy) by (apply nth_error_None; auto). cbn. auto.
+Qed.
+
+End Moves.
